@@ -340,6 +340,14 @@ Proof.
     + left. exact A.
 Qed.
 
+Lemma ref_decide2_ok : forall sc cfl f v, scope_ok sc -> ref_decide2 ev sc cfl f v = RDAccept ->
+  child_ok ev (part P cfl) f v /\ is_missing v = false.
+Proof.
+  intros sc cfl f v S H. apply ref_decide_ok with (sc := sc); auto.
+  destruct v as [l|i k pa pt fl its]; simpl in H; auto.
+  destruct k; auto; destruct (spec_at ev (f_spec fl)); auto; destruct (Typing.compat (e_tq ev) f s); auto; discriminate.
+Qed.
+
 Lemma formalize_ref_face : forall q sc st r ck cid cfl tpath ins i vpos v nw st1,
   Conforms st -> locate st i = Some vpos -> get_at st vpos = Some v ->
   formalize q sc st r ck cid cfl tpath ins (RNodeId i) = (nw, st1) -> same_face v nw.
@@ -364,13 +372,13 @@ Proof.
   - unfold tformalize_ref in T. destruct rv as [| |i|]; try discriminate.
     destruct (locate st i) as [vpos|] eqn:LO; [|discriminate].
     destruct (get_at st vpos) as [v|] eqn:Gv; [|discriminate].
-    destruct (ref_decide ev sc cfl f v) eqn:RD; try discriminate.
+    destruct (ref_decide2 ev sc cfl f v) eqn:RD; try discriminate.
     assert (F : formalize q sc st r ck cid cfl tpath ins (RNodeId i) = (nw, st1)) by (inversion T; reflexivity).
     destruct (formalize_conf q sc st r ck cid cfl tpath ins (RNodeId i) nw st1 C I F) as (Cn & C1 & R1).
     pose proof (formalize_ref_face _ _ _ _ _ _ _ _ _ _ _ _ _ _ C LO Gv F) as SF.
-    destruct (ref_decide_ok _ _ _ _ S RD) as (CO & NM).
+    destruct (ref_decide2_ok _ _ _ _ S RD) as (CO & NM).
     split; auto. split; [eapply child_ok_face; eauto|]. split; auto. split; auto.
-    intros M. destruct v as [l|j k pa pt fl its]; [simpl in RD; discriminate|].
+    intros M. destruct v as [l|j k pa pt fl its]; [simpl in NM; discriminate|].
     destruct nw; simpl in SF; [contradiction|]. simpl in M. discriminate.
 Qed.
 Lemma xval_missing : forall x, xval x = inl Typing.PMissing -> x_missing x = true.
